@@ -15,7 +15,7 @@ from ..norm import Canon, Lit, Logic, ProvCanon, lit_lt
 from ..paths import Frame, cached_paths
 from .common import call_name, path_must, reaching_value, short, stmt_contains
 
-FLOORS = {'C15.Y1': 3, 'C15.Y2': 2, 'C15.Y3': 1, 'C15.Y4': 1, 'C15.Y5': 2}
+FLOORS = {'C15.Y1': 3, 'C15.Y2': 2, 'C15.Y3': 1, 'C15.Y4': 1, 'C15.Y5': 2, 'C15.Y6': 4}
 
 # position of the `size` argument of the numpy Generator draws used as samples
 SIZE_POS = {'normal': 2, 'poisson': 1, 'uniform': 2, 'exponential': 1, 'standard_normal': 0,
@@ -303,6 +303,41 @@ def check(repo, res, tier):
         res.bad('C15.Y5', u, u.node, 'finished+flagged task does not set DELAYED',
                 'the scheduler does not report a delayed schedule when a flagged task completes',
                 path=bad.describe() if bad else None)
+    # the flag, once raised, survives until the scheduler reads it: after construction nothing
+    # writes anything but True into it (a no-op self-assignment aside)
+    res.rule('C15.Y6', 'delay_flag is only ever raised: every write outside Task.__init__ assigns True')
+    n_w = 0
+    for g in repo.all_functions():
+        if g.module.name.startswith(('topsim.utils', 'topsim.recipes')):
+            continue
+        for n in walk_no_nested(g.node):
+            tg = []
+            if isinstance(n, ast.Assign):
+                tg = [(t, n.value) for t in n.targets]
+            elif isinstance(n, (ast.AugAssign, ast.AnnAssign)) and getattr(n, 'value', None) is not None:
+                tg = [(n.target, None if isinstance(n, ast.AugAssign) else n.value)]
+            for t, v in tg:
+                if not (isinstance(t, ast.Attribute) and t.attr == 'delay_flag'):
+                    continue
+                n_w += 1
+                what = '%s writes delay_flag (line %d)' % (g.qual, n.lineno)
+                if isinstance(v, ast.Constant) and v.value is True:
+                    res.ok('C15.Y6', g, n, what, 'raises the flag')
+                elif g.name == '__init__' and isinstance(v, ast.Constant) and v.value is False:
+                    res.ok('C15.Y6', g, n, what, 'initial value')
+                elif v is not None and ast.dump(v) == ast.dump(ast.Attribute(value=t.value, attr='delay_flag', ctx=ast.Load())):
+                    res.ok('C15.Y6', g, n, what, 'no-op self-assignment')
+                elif isinstance(v, ast.BoolOp) and isinstance(v.op, ast.Or) and any(
+                        ast.dump(x) == ast.dump(ast.Attribute(value=t.value, attr='delay_flag', ctx=ast.Load()))
+                        for x in v.values):
+                    res.ok('C15.Y6', g, n, what, 'monotone: flag or <condition>')
+                else:
+                    res.bad('C15.Y6', g, n, what,
+                            '%s overwrites delay_flag with %s: a flag raised by do_work because the delay model '
+                            'lengthened the task can be lowered again before the scheduler reads it, and the '
+                            'delayed schedule is never reported' % (g.qual, short(ast.unparse(v) if v is not None else 'an update')))
+    if not n_w:
+        raise AnalysisError('no write of delay_flag found')
     # the plan update is called each scheduling round, and the status is reported
     a = repo.func('Scheduler.allocate_tasks')
     called = [n for n in walk_no_nested(a.node) if isinstance(n, ast.Call) and call_name(n) == '_update_current_plan']
